@@ -190,7 +190,7 @@ def make_volume(case, info):
     if case["method"] in ("majority",) or case["type"] == "segmentation":
         vals = rng.integers(0, 4, size=shape)
     elif dt.kind == "f":
-        if case["seed"] % 3 == 0:
+        if case["seed"] % 2 == 0:
             # wide dynamic range: sums of such values are not exact in
             # float64, so the order of the additions shows
             pool = np.array([3.4028234663852886e38, -3.4028234663852886e38,
@@ -200,7 +200,7 @@ def make_volume(case, info):
         return rng.normal(0, 100, size=shape).astype(dt)
     else:
         hi = min(int(np.iinfo(dt).max), 2 ** 40)
-        if case["seed"] % 3 == 0:
+        if case["seed"] % 2 == 0:
             hi = int(np.iinfo(dt).max)      # the whole range of the type
         vals = rng.integers(0, hi, size=shape, endpoint=True, dtype=np.uint64)
     return vals.astype(dt)
